@@ -664,8 +664,9 @@ func (c *Ctx) bocDepthLimitsAgree() {
 	// parser: depths[i] > maxDepth rejects (max accepted depth = maxDepth); serialiser importCell: depth > maxDepth rejects;
 	// hasher: child depth >= maxDepth rejects (node depth = child+1 <= maxDepth).
 	type lim struct {
-		op string
-		k  int64
+		op  string
+		k   int64
+		inc bool // the compared value has already been incremented for this node
 	}
 	find := func(fn, sentinel string) *lim {
 		f := c.fn("boc", fn)
@@ -678,7 +679,15 @@ func (c *Ctx) bocDepthLimitsAgree() {
 					if k, ok := constInt(bo.Y); ok && k >= 1000 {
 						for _, s := range b.Succs {
 							if returnsSentinel(s, sentinel) {
-								return &lim{bo.Op.String(), k}
+								inc := derivesFrom(bo.X, func(v ssa.Value) bool {
+									a, ok := v.(*ssa.BinOp)
+									if !ok || a.Op != token.ADD {
+										return false
+									}
+									one, ok := constInt(a.Y)
+									return ok && one == 1
+								}, false)
+								return &lim{bo.Op.String(), k, inc}
 							}
 						}
 					}
@@ -701,7 +710,9 @@ func (c *Ctx) bocDepthLimitsAgree() {
 		}
 		return m
 	}
-	mp, ms, mh := maxOf(p, false), maxOf(s, false), maxOf(h, true)
+	// the hasher tests the CHILD's depth before adding one for the node - unless the increment has
+	// been moved in front of the test, in which case it tests the node's own depth
+	mp, ms, mh := maxOf(p, false), maxOf(s, false), maxOf(h, h != nil && !h.inc)
 	c.check(mp == ms && ms == mh && mp > 0, R, "parser, serialiser and hasher accept the same maximal depth", token.NoPos, fmt.Sprintf("all three accept depth <= %d", mp), fmt.Sprintf("depth limits disagree: parser accepts <= %d, serialiser <= %d, hasher <= %d: the library could serialise a tree it cannot parse back (or vice versa)", mp, ms, mh))
 }
 
